@@ -124,6 +124,13 @@ def cases(seed, count, order=None, nphi=None, synth_frac=0.4):
             kw['p2'] = float(-rng.uniform(0.2, 2.0) * 1e5 * kw.get('B0', 1.0) ** 2 / kw['rc'][0] ** 2)
         if k % 4 == 1 and not kw.get('sigma0'):
             kw['sigma0'] = float(rng.uniform(0.1, 0.5) * rng.choice([-1, 1]))
+        if k % 4 == 2:
+            # the plain stratum: stellarator-symmetric vacuum field in the default units (switch-off values are inputs too:
+            # p2 == 0, I2 == 0, sigma0 == 0, B0 == 1 select branches and make factors equal to one)
+            for nm in ('I2', 'p2', 'sigma0', 'B2s'):
+                kw[nm] = 0.0
+            kw.pop('rs', None); kw.pop('zc', None)
+            kw['B0'] = 1.0
         if k % 5 == 3:
             # sparse harmonics: one harmonic carried only by (rs, zc), the next only by (rc, zs) - exact zeros in some of the
             # four coefficient arrays (a stellarator-symmetric curve seen from a quarter-period-displaced origin looks so)
